@@ -74,6 +74,7 @@ struct SimThread {
     int wake_reason;    // 0 signalled, 1 timeout, 2 spurious
     uint64_t arrival;
     uint64_t npts;
+    uint64_t trace_step;    // step number of this thread's latest schedule point
     uint32_t noprog;
     int spinning;
     uint64_t spin_epoch;
@@ -162,6 +163,8 @@ struct TraceEnt {
     uint32_t kind;
     uintptr_t addr;
     uintptr_t pc;
+    uint64_t v0, v1;    // value seen / written by the operation (diagnostics only)
+    uint32_t ok;        // 0 none, 1 value only, 2 cas failed, 3 cas succeeded
 };
 static TraceEnt g_trace[TRACE_N];
 
@@ -561,6 +564,8 @@ static void point(SimThread* me, int kind, const void* addr, uintptr_t pc)
         te.kind = (uint32_t) kind;
         te.addr = (uintptr_t) addr;
         te.pc = pc;
+        te.ok = 0;
+        me->trace_step = g_step;
     }
     advance_time(g_cfg.time_quantum_ns);
     if ((g_step & 1023) == 0)
@@ -865,13 +870,19 @@ SIM_EXPORT void sim_dump_trace(int fd, int last_n)
         "mem-write"};
     if (last_n > TRACE_N) last_n = TRACE_N;
     uint64_t from = g_step > (uint64_t) last_n ? g_step - (uint64_t) last_n + 1 : 1;
-    char buf[160];
+    char buf[240];
     for (uint64_t s = from; s <= g_step; s++)
     {
         TraceEnt& te = g_trace[s & (TRACE_N - 1)];
         if (te.step != s) continue;
-        int n = snprintf(buf, sizeof(buf), "%llu T%u %s addr=%p pc=%p\n", (unsigned long long) te.step,
-            te.tid, te.kind < 21 ? kn[te.kind] : "?", (void*) te.addr, (void*) te.pc);
+        int n;
+        if (te.ok)
+            n = snprintf(buf, sizeof(buf), "%llu T%u %s%s addr=%p val=%llx:%llx pc=%p\n", (unsigned long long) te.step, te.tid,
+                te.kind < 21 ? kn[te.kind] : "?", te.ok == 3 ? "+" : te.ok == 2 ? "-" : "", (void*) te.addr,
+                (unsigned long long) te.v1, (unsigned long long) te.v0, (void*) te.pc);
+        else
+            n = snprintf(buf, sizeof(buf), "%llu T%u %s addr=%p pc=%p\n", (unsigned long long) te.step, te.tid,
+                te.kind < 21 ? kn[te.kind] : "?", (void*) te.addr, (void*) te.pc);
         if (write(fd, buf, (size_t) n) < 0) break;
     }
 }
@@ -886,12 +897,23 @@ typedef __int128 a128;
 
 #define MO __ATOMIC_SEQ_CST
 
+// annotate the flight-recorder entry of the calling thread's latest point with the value it saw
+static inline void tval(SimThread* me, uint32_t ok, uint64_t lo, uint64_t hi)
+{
+    TraceEnt& te = g_trace[me->trace_step & (TRACE_N - 1)];
+    if (te.step != me->trace_step) return;
+    te.ok = ok;
+    te.v0 = lo;
+    te.v1 = hi;
+}
+
 #define DEF_ATOMICS(N, T)                                                                          \
     SIM_EXPORT T __tsan_atomic##N##_load(const volatile T* a, int)                                 \
     {                                                                                              \
         SimThread* me = SELF();                                                                    \
         if (me) point(me, K_LOAD, (const void*) a, PC());                                          \
         T v = __atomic_load_n((T*) a, MO);                                                         \
+        if (me) tval(me, 1, (uint64_t) v, 0);                                                      \
         if (me) after_op(me, false);                                                               \
         return v;                                                                                  \
     }                                                                                              \
@@ -900,6 +922,7 @@ typedef __int128 a128;
         SimThread* me = SELF();                                                                    \
         if (me) point(me, K_STORE, (const void*) a, PC());                                         \
         T old = __atomic_exchange_n((T*) a, v, MO);                                                \
+        if (me) tval(me, 1, (uint64_t) v, 0);                                                      \
         if (me) after_op(me, old != v);                                                            \
     }                                                                                              \
     SIM_EXPORT T __tsan_atomic##N##_exchange(volatile T* a, T v, int)                              \
@@ -963,6 +986,7 @@ typedef __int128 a128;
         SimThread* me = SELF();                                                                    \
         if (me) point(me, K_CAS, (const void*) a, PC());                                           \
         bool ok = __atomic_compare_exchange_n((T*) a, c, v, false, MO, MO);                        \
+        if (me) tval(me, ok ? 3 : 2, (uint64_t) v, 0);                                             \
         if (me) after_op(me, ok);                                                                  \
         return ok;                                                                                 \
     }                                                                                              \
@@ -971,6 +995,7 @@ typedef __int128 a128;
         SimThread* me = SELF();                                                                    \
         if (me) point(me, K_CAS, (const void*) a, PC());                                           \
         bool ok = __atomic_compare_exchange_n((T*) a, c, v, false, MO, MO);                        \
+        if (me) tval(me, ok ? 3 : 2, (uint64_t) v, 0);                                             \
         if (me) after_op(me, ok);                                                                  \
         return ok;                                                                                 \
     }                                                                                              \
@@ -1009,6 +1034,7 @@ SIM_EXPORT a128 __tsan_atomic128_load(const volatile a128* a, int)
     SimThread* me = SELF();
     if (me) point(me, K_LOAD, (const void*) a, PC());
     a128 v = load16((const void*) a);
+    if (me) tval(me, 1, (uint64_t) v, (uint64_t) (v >> 64));
     if (me) after_op(me, false);
     return v;
 }
@@ -1032,6 +1058,7 @@ SIM_EXPORT int __tsan_atomic128_compare_exchange_strong(volatile a128* a, a128* 
     SimThread* me = SELF();
     if (me) point(me, K_CAS, (const void*) a, PC());
     bool ok = cas16((void*) a, c, v);
+    if (me) tval(me, ok ? 3 : 2, (uint64_t) v, (uint64_t) (v >> 64));
     if (me) after_op(me, ok);
     return ok;
 }
@@ -1040,6 +1067,7 @@ SIM_EXPORT int __tsan_atomic128_compare_exchange_weak(volatile a128* a, a128* c,
     SimThread* me = SELF();
     if (me) point(me, K_CAS, (const void*) a, PC());
     bool ok = cas16((void*) a, c, v);
+    if (me) tval(me, ok ? 3 : 2, (uint64_t) v, (uint64_t) (v >> 64));
     if (me) after_op(me, ok);
     return ok;
 }
@@ -1057,16 +1085,21 @@ SIM_EXPORT a128 __tsan_atomic128_compare_exchange_val(volatile a128* a, a128 c, 
 // plain memory accesses: only translation units compiled with full TSan instrumentation (selected
 // header-only workloads) call these. They are schedule points like atomic loads/stores, which makes
 // data-race windows in header-only code reachable; they never count for spin detection.
-static inline void mem_point(const void* addr, int kind, uintptr_t pc)
+static inline void mem_point(const void* addr, int kind, uintptr_t pc, int size = 0)
 {
     SimThread* me = SELF();
     if (!me || me->atomic_depth > 0) return;
     g_st.mem_points++;
     point(me, kind, addr, pc);
+    // the value read (for writes: the value about to be overwritten)
+    if (size == 8)
+        tval(me, 1, *(const uint64_t*) addr, 0);
+    else if (size == 4)
+        tval(me, 1, *(const uint32_t*) addr, 0);
 }
 #define DEF_MEM(N)                                                                                 \
-    SIM_EXPORT void __tsan_read##N(void* a) { mem_point(a, K_MEMR, PC()); }                         \
-    SIM_EXPORT void __tsan_write##N(void* a) { mem_point(a, K_MEMW, PC()); }                        \
+    SIM_EXPORT void __tsan_read##N(void* a) { mem_point(a, K_MEMR, PC(), N); }                      \
+    SIM_EXPORT void __tsan_write##N(void* a) { mem_point(a, K_MEMW, PC(), N); }                     \
     SIM_EXPORT void __tsan_unaligned_read##N(void* a) { mem_point(a, K_MEMR, PC()); }               \
     SIM_EXPORT void __tsan_unaligned_write##N(void* a) { mem_point(a, K_MEMW, PC()); }
 DEF_MEM(1)
@@ -1143,6 +1176,7 @@ SIM_EXPORT bool simx___atomic_compare_exchange(
         memcpy(&e, expected, 16);
         ok = cas16(ptr, &e, d);
         if (!ok) memcpy(expected, &e, 16);
+        if (me) tval(me, ok ? 3 : 2, (uint64_t) d, (uint64_t) (d >> 64));
         break;
     }
     default:
@@ -1229,6 +1263,7 @@ SIM_EXPORT bool simx___atomic_compare_exchange_16(void* ptr, void* expected, a12
     memcpy(&e, expected, 16);
     bool ok = cas16(ptr, &e, desired);
     if (!ok) memcpy(expected, &e, 16);
+    if (me) tval(me, ok ? 3 : 2, (uint64_t) desired, (uint64_t) (desired >> 64));
     if (me) after_op(me, ok);
     return ok;
 }
@@ -1237,6 +1272,7 @@ SIM_EXPORT a128 simx___atomic_load_16(const void* ptr, int)
     SimThread* me = SELF();
     if (me) point(me, K_LOAD, ptr, PC());
     a128 v = load16(ptr);
+    if (me) tval(me, 1, (uint64_t) v, (uint64_t) (v >> 64));
     if (me) after_op(me, false);
     return v;
 }
